@@ -1,6 +1,7 @@
 """C06 / C07 / C14 / C10 / C15: contracts of the event intake (cloudsync/event.py EventManager)."""
 from pyvc.dsl import *   # noqa
 from cloudsync.types import DIRECTORY, FILE
+from cloudsync.sync.state import TRASHED, MISSING, EXISTS, UNKNOWN, LIKELY_TRASHED, CORRUPT
 from cloudsync.notification import SourceEnum
 import cloudsync.exceptions as ex
 
@@ -82,3 +83,52 @@ def event_manager_fault_classification(w: World):
                   "and carries a temporary / disconnected / namespace error")
         if len(calls("_save_current_cursor")) > 0:
             check(em.need_walk is True, "a rejected cursor forces a full walk")
+
+
+@lemma(props=["C14", "C11"], configs="update_cases", raises=["AssertionError"],
+       inline=["cloudsync.sync.state:SyncState.update", "cloudsync.sync.state:SyncState._change_oid",
+               "cloudsync.sync.state:SyncState._change_path", "cloudsync.sync.state:SyncState.lookup_oid"])
+def event_update_records_the_event(w: World):
+    """L14.4: applying a provider event (no prior id) to the state: an entry already known under the event's id is
+    updated in place -- no second entry for the same object; otherwise a new entry is indexed under the id.  Afterwards
+    that side carries the event's id, path (in the provider's separator form), hash and existence, is flagged changed
+    and is in the pending set; the other side of the entry and both sides' last-synced markers are untouched"""
+    state = w.state
+    side = w.changed
+    other = 1 - side
+    ev = w.event("ev")
+    assume(ev.oid is not None and len(ev.oid) > 0)
+    assume(ev.otype == DIRECTORY or ev.otype == FILE)
+    ent0 = state.lookup_oid(side, ev.oid)
+    # exhaustive case split (12 cases per side, one generation task each): known object? x existence kind x path given?
+    assume((ent0 is not None) == (w.known == 1))
+    assume((w.exk == 0 and ev.exists is True) or (w.exk == 1 and ev.exists is False) or (w.exk == 2 and ev.exists is None))
+    assume((ev.path is not None) == (w.has_path == 1))
+    if ent0 is not None:
+        o_oid, o_path, o_hash, o_sh, o_sp, o_ex = ent0[other].oid, ent0[other].path, ent0[other].hash, ent0[other].sync_hash, ent0[other].sync_path, ent0[other].exists
+        s_sh, s_sp, s_hash, s_path = ent0[side].sync_hash, ent0[side].sync_path, ent0[side].hash, ent0[side].path
+        disc0 = ent0.is_discarded
+    state.update(side, ev.otype, ev.oid, path=ev.path, hash=ev.hash, exists=ev.exists)
+    e = state.lookup_oid(side, ev.oid)
+    check(e is not None, "the id is indexed afterwards")
+    if ent0 is not None and not (disc0 and w.providers[side].oid_is_path and truthy(ev.path)):
+        check(e is ent0, "a known object is updated in place (no second entry)")
+        check(e[other].oid == o_oid and e[other].path == o_path and e[other].hash == o_hash and e[other].exists == o_ex,
+              "the other side is untouched")
+        check(e[other].sync_hash == o_sh and e[other].sync_path == o_sp and e[side].sync_hash == s_sh and e[side].sync_path == s_sp,
+              "last-synced markers are untouched")
+        if ev.hash is None:
+            check(e[side].hash == s_hash, "an event without a hash keeps the recorded hash")
+        if ev.path is None:
+            check(e[side].path == s_path, "an event without a path keeps the recorded path")
+    check(e[side].oid == ev.oid, "the side carries the event's id")
+    if ev.path is not None:
+        check(e[side].path == w.providers[side].normalize_path_separators(ev.path), "and its path in the provider's separator form")
+    if ev.hash is not None:
+        check(e[side].hash == ev.hash, "and its hash")
+    check(truthy(e[side].changed), "the side is flagged changed")
+    check(in_changeset(state, e), "and the entry is in the pending set")
+    if ev.exists is True:
+        check(e[side].exists in (EXISTS, LIKELY_TRASHED) or e[side].exists == CORRUPT, "an existing object is recorded as existing")
+    if ev.exists is False:
+        check(e[side].exists == TRASHED or (e[side].exists == CORRUPT and e[side]._saved_exists == TRASHED), "a deletion is recorded as a tombstone")
